@@ -13,6 +13,15 @@ CLAIMED = {
         note="Trusted: the pool model (loky pickles each batch once; workers share no memory; n_jobs==1 is in-process), the "
              "CPython refcount rule used to recognise pure temporaries, SynReactor on pristine objects as reference. Stubs: "
              "Parallel, ProcessPoolExecutor, id, GC trigger, random facade; all SynKit/RDKit/networkx code is real."),
+    "C18": dict(
+        text="CRNCanonicalizer and CRNAutomorphism run on generated networks, their isomorphic twins and one-edit neighbours while "
+             "the simulator owns id() (address re-issue policy for temporaries) and the wall clock (tick per read, forward/backward "
+             "jumps, freezes scheduled inside the calls). Every answer is compared with a backtracking enumeration of the view's "
+             "structure-preserving self-maps; answers must not depend on allocator or clock unless flagged, flags need a cause, "
+             "flagged answers must still be sound. Seeded sampling; evidence, not proof.",
+        ref="3.5",
+        note="Trusted: the 150-line backtracking reference (dsim/props/graphref.py); the rule that a pure temporary's address may be "
+             "re-issued immediately. Stubs: id, time. Real: canon.py, automorphism.py, backend/conversion, networkx VF2."),
     "C15": dict(
         text="Seeded search over operation histories of the real CRNHyperGraph against a dict reference model: all four "
              "redundant indices, species set, labels and dense+sparse incidence matrix of every live network are compared "
